@@ -272,6 +272,11 @@ REEVAL = [
     ("{'a': 1} if i == 0 else {'a': 1, 'b': 2}", "dict-length"), ("i", "toplevel"),
     ("(i, 'x')", "tuple-leaf"), ("'a' * (i + 1)", "str"), ("[1, 2] if i == 0 else [1, 2.5]", "leaf-type"),
     ("Point(x=i, y=2)", "dataclass-field"),
+    # the later value is equal to the first one but an instance of a subclass of its type
+    ("1 if i == 0 else True", "subclass-bool"), ("[0, 2] if i == 0 else [False, 2]", "nested-subclass-bool"),
+    ("(1, 2) if i == 0 else NT(1, 2)", "subclass-namedtuple"), ("[1, 2] if i == 0 else MyList([1, 2])", "subclass-list"),
+    ("{'a': 1} if i == 0 else OrderedDict({'a': 1})", "subclass-dict"),
+    ("Point(x=1, y=2) if i == 0 else SubPoint(x=1, y=2)", "subclass-dataclass"),
 ]
 
 
